@@ -1,11 +1,11 @@
 SPECIFICATION Spec
 CONSTANTS
-  MaxBlocks = 3
+  MaxBlocks = 2
   MaxReqs = 3
-  Templates = {"o23", "jmp", "ret", "call"}
+  Templates = {"o23", "ret", "call"}
   PatchKinds = {"plain2", "jmpsym", "callsym", "ref", "loop"}
   FnLayouts = {"none", "one"}
-  EndSyms = {TRUE, FALSE}
+  EndSyms = {FALSE}
   NoSyms = {FALSE}
   AnnModes = {"none"}
   WithProxyDel = TRUE
